@@ -156,12 +156,13 @@ def strings_for(itype, rng, n):
 
 
 def plan(tier, seed):
-    n = 3000 if tier == 'quick' else 100000
-    sp = [{'kind': 'iso', 'itype': t, 'n': n, 'slice': 0} for t in TYPES]
+    n = 3000 if tier == 'quick' else 300000
+    nsl = 1 if tier == 'quick' else 2
+    sp = [{'kind': 'iso', 'itype': t, 'n': n // nsl, 'slice': k} for t in TYPES for k in range(nsl)]
     sp.append({'kind': 'catalogue'})
     sp.append({'kind': 'cliprompt'})
     from hv import realwork
-    N = 8 if tier == 'quick' else 60
+    N = 8 if tier == 'quick' else 200
     for y in (2021, 2022, 2023):
         sp.append({'kind': 'real', 'year': y, 'families': ['F0', 'F1', 'F2', 'F3', 'F4', 'F5', 'F8', 'F9', 'F10'], 'n': N})
     return sp
@@ -290,7 +291,7 @@ def run_shard(spec, tier, seed):
     if spec['kind'] == 'cliprompt':
         return run_cliprompt(spec, tier, seed, res)
     itype = spec['itype']
-    rng = rng_for('C11', seed, itype)
+    rng = rng_for('C11', seed, itype, spec.get('slice', 0))
     cls = make_form(hx)
     saved = install_contracts(hx, res)
     try:
